@@ -436,6 +436,10 @@ class SelectWith(Statement):
         if isinstance(TypeQualifier.decay(arg.result), BitVector):
             root = TypeQualifier.decay(arg.result._root)
 
+            # the vhdl type of an array element is the element type
+            if isinstance(root, Array):
+                root = root._elemtype_()
+
             if isinstance(root, Unsigned):
                 arg = Value(arg.result.unsigned)
             elif isinstance(root, Signed):
@@ -482,6 +486,10 @@ class CaseWhen(Statement):
 
         if isinstance(TypeQualifier.decay(cond.result), BitVector):
             root = TypeQualifier.decay(cond.result._root)
+
+            # the vhdl type of an array element is the element type
+            if isinstance(root, Array):
+                root = root._elemtype_()
 
             if isinstance(root, Unsigned):
                 cond = Value(cond.result.unsigned)
